@@ -195,8 +195,12 @@ def gen_cases(rng, tier):
         order, slots = gen_dag(rng, n, 0.6)
         macro = [i for i in range(n) if rng.random() < 0.5] or [rng.randrange(n)]
         ex = [i for i in range(n) if rng.random() < 0.4]
-        yield {"n": n, "order": order, "slots": slots, "exec": ex, "fails": [], "mode": "ctl", "macro": macro,
-               "inner_exec": [i for i in macro if i not in ex and rng.random() < 0.5],
+        byval = any(i in ex for i in macro) and rng.random() < 0.5
+        # by value: the macro handed to the executor is a COPY (cloudpickle round trip of the job and of its result),
+        # merged back into the live macro when the job completes
+        yield {"n": n, "order": order, "slots": slots, "exec": ex, "fails": [],
+               "mode": "ctl-cloudpickle" if byval else "ctl", "macro": macro,
+               "inner_exec": [] if byval else [i for i in macro if i not in ex and rng.random() < 0.5],
                "choices": [rng.randint(0, 4) for _ in range(4 * n)]}
     # the hosting composite is a MACRO (wired once at instantiation): arguments feed the children (one argument to
     # several children, or to several inputs of one child, or to a single input), children may be macros themselves,
@@ -213,7 +217,8 @@ def gen_cases(rng, tier):
                "rerun": {"exec2": [i for i in range(n) if rng.random() < 0.5],
                          "choices2": [rng.randint(0, 4) for _ in range(4 * n)],
                          "swap": rng.sample(range(n), rng.choice([0, 0, 1, 1, 2])),
-                         "poke": rng.sample(range(n), rng.choice([0, 1, 1, 2]))}}
+                         "poke": rng.sample(range(n), rng.choice([0, 1, 1, 2])),
+                         "pull": rng.sample(range(n), 1) if rng.random() < 0.25 else []}}
     # fine interleaving: callbacks on their own thread, stepped in two halves
     for _ in range(60 if tier == "quick" else 600):
         n = rng.randint(2, 5 if tier == "quick" else 8)
@@ -267,13 +272,18 @@ def gen_host_case(rng, tier):
             "exec": ex, "fails": [], "mode": "ctl", "choices": [rng.randint(0, 4) for _ in range(4 * n + 8)]}
     u = rng.random()
     pick = lambda: [[i, rng.choice("FFM")] for i in rng.sample(range(n), rng.choice([1, 1, 2]))]  # noqa: E731
-    if u < 0.35:
+    if u < 0.3:
         case["replace0"] = pick()
-    elif u < 0.6:
+    elif u < 0.65:
         case["fails"] = [rng.randrange(n)]
-        case["rerun"] = {"exec2": [i for i in range(n) if rng.random() < 0.4],
+        case["rerun"] = {"exec2": [i for i in range(n) if rng.random() < 0.5],
                          "choices2": [rng.randint(0, 4) for _ in range(4 * n + 8)],
-                         "replace": pick() if rng.random() < 0.7 else []}
+                         "replace": pick() if rng.random() < 0.4 else [],
+                         # children pulled between the runs; the macro sent through pickle between the runs
+                         "pull": rng.sample(range(n), rng.choice([1, 1, 2])) if rng.random() < 0.5 else [],
+                         "roundtrip": rng.random() < 0.3}
+    if rng.random() < 0.3 and not case["inner_exec"]:
+        case["roundtrip0"] = True  # the macro that runs is a pickled copy of the one that was wired
     for i, kind in case.get("replace0", []) + case.get("rerun", {}).get("replace", []):
         # what stands at i afterwards (a macro wrapper or a plain function node) decides how its job is completed
         if kind == "M" and i not in case["macro"]:
@@ -282,6 +292,20 @@ def gen_host_case(rng, tier):
 
 
 def corpus():
+    # macro host, diamond 0 -> 1,2 -> 3: run (3 fails), child 1 pulled, re-run with 1 and 2 out and 2 completing first
+    yield {"n": 4, "order": [0, 1, 2, 3], "slots": {"0": [[], [], []], "1": [[0], [], []], "2": [[0], [], []],
+                                                     "3": [[1], [2], []]},
+           "argslots": {str(i): [None] * 3 for i in range(4)}, "outs": [3], "host": "macro", "macro": [],
+           "inner_exec": [], "exec": [], "fails": [3], "mode": "ctl", "choices": [],
+           "rerun": {"exec2": [1, 2], "choices2": [0, 0, 0, 2, 0, 0, 0, 0], "replace": [], "pull": [1]}}
+    # macro host with a fan-in, sent through pickle before it runs, both upstreams out, either completion order
+    for ch in ([0, 0, 0, 1, 0, 0], [0, 0, 0, 2, 0, 0]):
+        yield {"n": 3, "order": [0, 1, 2], "slots": {"0": [[], [], []], "1": [[], [], []], "2": [[0], [1], []]},
+               "argslots": {str(i): [None] * 3 for i in range(3)}, "outs": [2], "host": "macro", "macro": [],
+               "inner_exec": [], "exec": [0, 1], "fails": [], "mode": "ctl", "choices": ch, "roundtrip0": True}
+    # a macro child handed to a by-value executor: merged back, nothing may stay marked as running
+    yield {"n": 2, "order": [0, 1], "slots": {"0": [[], [], []], "1": [[0], [], []]}, "exec": [0], "fails": [],
+           "mode": "ctl-cloudpickle", "macro": [0], "inner_exec": [], "choices": []}
     # macro host: argument ua into two inputs of the same child (its interface node must survive and feed both)
     yield {"n": 2, "order": [0, 1], "slots": {"0": [[], [], []], "1": [[0], [], []]},
            "argslots": {"0": [0, 0, None], "1": [None, 1, None]}, "outs": [1], "host": "macro", "macro": [],
@@ -333,6 +357,8 @@ def _run_once(case, choices):
             for inner in _kids(n).values():
                 inner.use_cache = False
     _replace(case, wf, ns, case.get("replace0", []), bool(rr))
+    if case.get("roundtrip0"):
+        wf, ns = _roundtrip(case, wf, ns)
     res, seen = _one_run(case, wf, ns, choices, case["exec"], case.get("mode", "ctl"))
     if rr and not any(run for run, _f in res["flags"].values()) and not res["late_jobs"]:
         # the documented way on: clear the failure, remove its cause, run again
@@ -361,6 +387,20 @@ def _run_once(case, choices):
             for down in outs:
                 down.connect(new.outputs.o)  # becomes the newest connection of that input
         _replace(case, wf, ns, rr.get("replace", []), True)
+        # a child PULLED between the runs: the pull rewires its data tree temporarily and must put every signal
+        # connection back, on both ends, also those leading to siblings outside the pulled tree
+        if rr.get("pull"):
+            for n in ns.values():
+                n.executor = None
+                for inner in _kids(n).values():
+                    inner.executor = None
+        for i in rr.get("pull", []):
+            try:
+                ns[i].pull()
+            except BaseException:  # noqa: BLE001  (a pull may be refused or fail: nothing to observe here)
+                pass
+        if rr.get("roundtrip"):
+            wf, ns = _roundtrip(case, wf, ns)
         # a child run by hand between the two runs (its `ran` reaches the triggers downstream of it while
         # nothing is running; whatever that leaves behind must not leak into the next run)
         if rr.get("poke"):
@@ -378,6 +418,16 @@ def _run_once(case, choices):
         res["run2"] = res2
         seen = seen + seen2
     return res, seen
+
+
+def _roundtrip(case, wf, ns):
+    """the composite goes through (cloud)pickle — what a save/load or a by-value executor does to it — and the copy
+    is what runs: a macro is wired once, so whatever the copy lost of its run wiring stays lost"""
+    import cloudpickle
+
+    wf2 = cloudpickle.loads(cloudpickle.dumps(wf))
+    ns2 = {i: wf2.children[n.label] for i, n in ns.items() if n.label in wf2.children}
+    return wf2, ns2
 
 
 def _replace(case, wf, ns, edits, nocache):
